@@ -16,7 +16,8 @@ RULE = ('configurations = every non-comment line of every .dat file under stdnum
         'ranges with equal-length ordered endpoints, property text fully consumed by key="value" items, consistent '
         'nesting); per entry: lookup of parents\' low + low/high returns the endpoint with the entry\'s properties; '
         'per consumer: a witness number built from the entry is pushed through the public function (IBAN structure, '
-        'GS1 AI encode/decode, ISBN five-part split, bank/location/office info()). non-trivial = entries with a '
+        'GS1 AI encode/decode, ISBN five-part split, bank/location/office info(); for nz/banks, be/banks, cz/banks, at/fa, '
+        'at/postleitzahl, cn/loc, my/bp also a number under the entry that the consuming is_valid() accepts). non-trivial = entries with a '
         'consumer witness or a reachability lookup.')
 ASSUMPTIONS = ['own grammar: indent of spaces, ranges x or x-y, properties key="value" separated by blanks',
                'consumer witness builders are per registry (vp/checks/c11.py CONSUMERS)']
@@ -246,6 +247,15 @@ def consumers(rel, ref, res, tier):
                     if not table['ok'](r, props, merged, prefix + w):
                         fail('consumer-' + name.replace('/', '-'), (prefix + '/' if prefix else '') + (lo if lo == hi else lo + '-' + hi),
                              q, '%s(%r) = %r does not return the entry %r' % (table['fn'], q, r[1], props))
+                    if 'witness' in table:
+                        # ... and the entry admits a number that the consuming validator accepts
+                        cands = table['witness'](prefix + w, len(parents))
+                        if cands:
+                            n += 1
+                            if not any(call(table['accepts'], c) == ('ok', True) for c in cands):
+                                fail('validate-' + name.replace('/', '-'), (prefix + '/' if prefix else '') + (lo if lo == hi else lo + '-' + hi),
+                                     cands[0], 'none of the %d numbers %r ... under entry %r is accepted by %s' % (
+                                         len(cands), cands[0], prefix + w, table['accepts_fn']))
     return n
 
 
@@ -268,15 +278,39 @@ def _mk():
     def hasm(r, props, merged, path):
         return r[0] == 'ok' and _contains(r[1], merged)
 
+    from ..refs import standards
+
+    def be_witness(p, d):
+        # Belgian BBAN: bank code + 7 digits + (first ten digits mod 97, 97 for 0); IBAN check digits per ISO 13616
+        out = []
+        for b in range(3):
+            ten = (p + '%07d' % b)[:10]
+            bban = ten + '%02d' % (int(ten) % 97 or 97)
+            cd = 98 - standards.mod97(bban + 'BE00')
+            out.append('BE%02d%s' % (cd, bban))
+        return out
+
     return {
-        'at/postleitzahl': dict(fn='at.postleitzahl.info', call=postleitzahl.info, build=lambda p, d: p, ok=has),
-        'at/fa': dict(fn='at.tin.info', call=at_tin.info, build=lambda p, d: p + '0000000', ok=has),
-        'be/banks': dict(fn='be.iban.info', call=be_iban.info, build=lambda p, d: 'BE00' + p + '000000000', ok=has),
-        'cz/banks': dict(fn='cz.bankaccount.info', call=cz_ba.info, build=lambda p, d: '19-2000145399/' + p, ok=has),
-        'nz/banks': dict(fn='nz.bankaccount.info', call=nz_ba.info, build=lambda p, d: (p + '0' * 16)[:16], ok=hasm),
+        'at/postleitzahl': dict(fn='at.postleitzahl.info', call=postleitzahl.info, build=lambda p, d: p, ok=has,
+                                witness=lambda p, d: [p], accepts=postleitzahl.is_valid, accepts_fn='at.postleitzahl.is_valid'),
+        'at/fa': dict(fn='at.tin.info', call=at_tin.info, build=lambda p, d: p + '0000000', ok=has,
+                      witness=lambda p, d: ['%s%07d' % (p, b) for b in range(1230, 1330)] if len(p) == 2 else None,
+                      accepts=at_tin.is_valid, accepts_fn='at.tin.is_valid'),
+        'be/banks': dict(fn='be.iban.info', call=be_iban.info, build=lambda p, d: 'BE00' + p + '000000000', ok=has,
+                         witness=be_witness, accepts=be_iban.is_valid, accepts_fn='be.iban.is_valid'),
+        'cz/banks': dict(fn='cz.bankaccount.info', call=cz_ba.info, build=lambda p, d: '19-2000145399/' + p, ok=has,
+                         witness=lambda p, d: ['19-2000145399/' + p], accepts=cz_ba.is_valid, accepts_fn='cz.bankaccount.is_valid'),
+        'nz/banks': dict(fn='nz.bankaccount.info', call=nz_ba.info, build=lambda p, d: (p + '0' * 16)[:16], ok=hasm,
+                         # a registered branch admits an account number: the 7 digit base number is searched (check
+                         # digit algorithms are modulo <= 11, 400 consecutive bases contain a solution for each)
+                         witness=lambda p, d: ['%s%07d000' % (p, b) for b in range(400)] if len(p) == 6 else None,
+                         accepts=nz_ba.is_valid, accepts_fn='nz.bankaccount.is_valid'),
         'cn/loc': dict(fn='cn.ric.get_birth_place', call=ric.get_birth_place,
-                       build=lambda p, d: (p + '000000')[:6] + '199001010000' if len(p) == 6 else None, ok=hasm),
-        'my/bp': dict(fn='my.nric.get_birth_place', call=nric.get_birth_place, build=lambda p, d: '770305' + p + '5678', ok=has),
+                       build=lambda p, d: (p + '000000')[:6] + '199001010000' if len(p) == 6 else None, ok=hasm,
+                       witness=lambda p, d: [p + '19900101001' + c for c in '0123456789X'] if len(p) == 6 else None,
+                       accepts=ric.is_valid, accepts_fn='cn.ric.is_valid'),
+        'my/bp': dict(fn='my.nric.get_birth_place', call=nric.get_birth_place, build=lambda p, d: '770305' + p + '5678', ok=has,
+                      witness=lambda p, d: ['770305' + p + '5678'], accepts=nric.is_valid, accepts_fn='my.nric.is_valid'),
         'us/ein': dict(fn='us.ein.get_campus', call=ein.get_campus, build=lambda p, d: p + '0000000',
                        ok=lambda r, props, merged, path: r[0] == 'ok' and r[1] == props.get('campus')),
         'eu/nace': dict(fn='eu.nace.info', call=nace.info, build=lambda p, d: p, ok=hasm),
